@@ -444,7 +444,7 @@ fn check_forgery(ctx: &mut Ctx, plan: &Plan) -> Res {
     ctx.eval();
     let pr = proto(plan.ietf);
     let pk = RefKey::from_seed(&LT_SEED).public();
-    let args = ClientArgs { ietf: plan.ietf, key: Some(key_string(&pk, plan.key_b64)), nreq: plan.nreq.clamp(1, 64), mode: plan.mode % 3 };
+    let args = ClientArgs { ietf: plan.ietf, key: Some(key_string(&pk, plan.key_b64)), nreq: plan.nreq.clamp(1, 64), mode: plan.mode % 3, local_tz: None };
     let delivered: RefCell<Vec<Vec<u8>>> = RefCell::new(vec![]);
     let run = match run_client(&args, |reqs| {
         let out: Vec<Vec<u8>> = (0..reqs.len()).map(|i| forge(plan, i, reqs)).collect();
@@ -742,8 +742,11 @@ pub fn replay_c01(ctx: &mut Ctx, _sub: &str, case: &Value) -> Res {
 #[derive(Debug, Clone, Serialize, Deserialize)]
 pub struct HonestPlan {
     pub ietf: bool,
-    /// 0 none, 1 hex, 2 base64
+    /// 0 none, 1 hex, 2 base64, 3 upper-case hex, 4 mixed-case hex
     pub key: u8,
+    /// 0 = UTC output (-z); 1.. = local-time output (no -z) under one of LOCAL_ZONES
+    #[serde(default)]
+    pub zone: u8,
     pub nreq: u8,
     /// 0 plain, 1 -v, 2 -j, 3 default time format
     pub mode: u8,
@@ -757,6 +760,9 @@ pub struct HonestPlan {
     #[serde(default)]
     pub same_batch: bool,
 }
+
+/// POSIX TZ strings (no tzdata needed) and two named zones; the printed instant must not depend on the zone
+const LOCAL_ZONES: [&str; 5] = ["XXX3", "YYY-5:30", "ZZZ-13", "America/St_Johns", "UTC"];
 
 fn check_honest(ctx: &mut Ctx, p: &HonestPlan) -> Res {
     ctx.eval();
@@ -775,12 +781,17 @@ fn check_honest(ctx: &mut Ctx, p: &HonestPlan) -> Res {
         None
     };
     let pk = RefKey::from_seed(&LT_SEED).public();
-    let key = match p.key % 3 {
+    let key = match p.key % 5 {
         0 => None,
         1 => Some(hex(&pk)),
-        _ => Some(BASE64.encode(&pk)),
+        2 => Some(BASE64.encode(&pk)),
+        3 => Some(hex(&pk).to_uppercase()),
+        _ => Some(hex(&pk).chars().enumerate().map(|(i, ch)| if i % 3 == 0 { ch.to_ascii_uppercase() } else { ch }).collect()),
     };
-    let args = ClientArgs { ietf: p.ietf, key: key.clone(), nreq, mode: p.mode % 4 };
+    // local-time output is only compared through the epoch-seconds format (mode 3's civil date would need tzdata)
+    let zone = if p.mode % 4 == 3 { 0 } else { p.zone as usize % (LOCAL_ZONES.len() + 1) };
+    let local_tz = if zone == 0 { None } else { Some(LOCAL_ZONES[zone - 1].to_string()) };
+    let args = ClientArgs { ietf: p.ietf, key: key.clone(), nreq, mode: p.mode % 4, local_tz: local_tz.clone() };
     let delivered: RefCell<Vec<Vec<u8>>> = RefCell::new(vec![]);
     let lab_err: RefCell<Option<String>> = RefCell::new(None);
     let run = run_client(&args, |reqs| {
@@ -899,7 +910,7 @@ fn check_honest(ctx: &mut Ctx, p: &HonestPlan) -> Res {
             }
         }
     }
-    let desc = format!("{} key={} mode={} nreq={} batch={} index={} peer={} same_batch={}", pr.name(), ["none", "hex", "base64"][(p.key % 3) as usize], p.mode % 4, nreq, batch, index, peer, p.same_batch);
+    let desc = format!("{} key={} mode={} tz={:?} nreq={} batch={} index={} peer={} same_batch={}", pr.name(), ["none", "hex", "base64", "HEX", "mixed-case hex"][(p.key % 5) as usize], p.mode % 4, local_tz, nreq, batch, index, peer, p.same_batch);
     if run.exit != Some(0) {
         return ctx.fail(
             format!("honest-response-rejected|{}|{}", pr.name(), if index == 0 && batch == 1 { "single" } else { "batched" }),
@@ -948,16 +959,16 @@ fn check_honest(ctx: &mut Ctx, p: &HonestPlan) -> Res {
         }
         _ => {}
     }
-    ctx.class(&format!("c03:{}:key={}:depth={}:{}", pr.name(), p.key % 3, depth, peer));
+    ctx.class(&format!("c03:{}:key={}:depth={}:{}:{}", pr.name(), p.key % 5, depth, peer, if local_tz.is_some() { "local-time" } else { "utc" }));
     if index >= 1 || !p.real_server {
-        ctx.nontrivial(&(p.ietf, p.key % 3, batch, index, p.real_server, p.mode % 4, if p.real_server { 0 } else { p.midp }));
+        ctx.nontrivial(&(p.ietf, p.key % 5, batch, index, p.real_server, p.mode % 4, zone, if p.real_server { 0 } else { p.midp }));
     }
     Ok(())
 }
 
 fn honest_strategy() -> impl Strategy<Value = HonestPlan> {
-    (any::<bool>(), 0u8..3, prop_oneof![6 => Just(1u8), 2 => 2u8..=4, 1 => 5u8..=16, 1 => 17u8..=64], 0u8..4, batch_strategy(), prop::bool::weighted(0.4)).prop_flat_map(|(ietf, key, nreq, mode, (batch, index), real_server)| {
-        (midp_strategy(ietf), any::<bool>()).prop_map(move |(midp, same_batch)| HonestPlan { ietf, key, nreq, mode, batch, index, midp, real_server, same_batch })
+    (any::<bool>(), prop_oneof![3 => 0u8..3, 1 => 3u8..5], prop_oneof![6 => Just(1u8), 2 => 2u8..=4, 1 => 5u8..=16, 1 => 17u8..=64], 0u8..4, batch_strategy(), prop::bool::weighted(0.4), prop_oneof![2 => Just(0u8), 1 => 1u8..=5]).prop_flat_map(|(ietf, key, nreq, mode, (batch, index), real_server, zone)| {
+        (midp_strategy(ietf), any::<bool>()).prop_map(move |(midp, same_batch)| HonestPlan { ietf, key, zone, nreq, mode, batch, index, midp, real_server, same_batch })
     })
 }
 
@@ -982,7 +993,7 @@ pub fn run_c03(ctx: &mut Ctx) -> Vec<Violation> {
                         if t == Tier::Thorough && key == 2 && b > 8 {
                             continue;
                         }
-                        grid.push(HonestPlan { ietf, key, nreq: 1, mode: (b + i) % 4, batch: b, index: i, midp: if ietf { 1_750_000_000 } else { 1_750_000_000_999_999 }, real_server, same_batch: false });
+                        grid.push(HonestPlan { ietf, key, zone: 0, nreq: 1, mode: (b + i) % 4, batch: b, index: i, midp: if ietf { 1_750_000_000 } else { 1_750_000_000_999_999 }, real_server, same_batch: false });
                     }
                 }
             }
@@ -994,8 +1005,19 @@ pub fn run_c03(ctx: &mut Ctx) -> Vec<Violation> {
         for key in 0..3u8 {
             for real_server in [false, true] {
                 for (nreq, batch, index) in [(2u8, 2u8, 0u8), (3, 8, 2), (5, 5, 0), (9, 16, 4), (16, 64, 40)] {
-                    grid.push(HonestPlan { ietf, key, nreq, mode: nreq % 3, batch, index, midp: if ietf { 1_760_000_000 } else { 1_760_000_000_000_001 }, real_server, same_batch: true });
+                    grid.push(HonestPlan { ietf, key, zone: 0, nreq, mode: nreq % 3, batch, index, midp: if ietf { 1_760_000_000 } else { 1_760_000_000_000_001 }, real_server, same_batch: true });
                 }
+            }
+        }
+    }
+    // key spellings and local-time output
+    for ietf in [false, true] {
+        for key in [3u8, 4] {
+            grid.push(HonestPlan { ietf, key, zone: 0, nreq: 1, mode: 1, batch: 3, index: 1, midp: if ietf { 1_770_000_000 } else { 1_770_000_000_500_000 }, real_server: false, same_batch: false });
+        }
+        for zone in 1..=5u8 {
+            for midp_s in [1_770_000_000u64, 1_751_759_999, 1_762_061_400, 86_399, 4_102_444_799] {
+                grid.push(HonestPlan { ietf, key: 1, zone, nreq: 1, mode: zone % 3, batch: 2, index: 1, midp: if ietf { midp_s } else { midp_s * 1_000_000 + 7 }, real_server: false, same_batch: false });
             }
         }
     }
